@@ -53,6 +53,8 @@ from pedal.resolvers.simple import resolve as simple_resolve, by_priority
 from pedal.resolvers.full import resolve as full_resolve
 from pedal.resolvers.sectional import resolve as original_sectional_resolve
 from pedal.core.formatting import Formatter, HtmlFormatter
+from pedal.core.location import Location
+from pedal.utilities.text import inject_line
 
 
 class GradeScopeEnvironment(Environment):
@@ -269,7 +271,9 @@ def set_maximum_score(number):
 
 class GradeScopeFormatter(HtmlFormatter):
 
-    def python_code(self, code):
+    def python_code(self, code, focus=None):
+        if isinstance(focus, Location):
+            code = inject_line(code, focus.line + 1, " " * (focus.col - 1) + "^" * (focus.end_col - focus.col))
         return self.pre(code)
 
     def python_expression(self, code):
